@@ -34,6 +34,10 @@ def run_demo(demo, wt):
     if "CODE_DATA_PATH" in head or "subprocess" in head and "spawn" in head:
         rc, o = sh("/venv/bin/python %s" % demo, cwd="/tmp", env=env, timeout=600)
         out["driver"] = rc
+        if "as producer" in head or "producer" in head:
+            for v, py in PY.items():
+                rc, o = sh("%s %s" % (py, demo), cwd="/tmp", env=env, timeout=900)
+                out["driver-" + v] = rc
         return out
     for v, py in PY.items():
         rc, o = sh("%s %s" % (py, demo), cwd="/tmp", env=env, timeout=600)
@@ -62,15 +66,16 @@ def confirm(src, prop, i):
             return False
         npass = tests_pass(wt)
         broken = run_demo(demo, wt)
-        ok = all(v == 0 for v in clean.values()) and any(v != 0 for v in broken.values()) and npass == 30
+        ok = all(v == 0 for v in clean.values()) and any(v != 0 for v in broken.values()) and npass >= 30
         print("%s bug%s: clean=%s with-change=%s tests_passed=%d -> %s" % (prop, i, clean, broken, npass, "CONFIRMED" if ok else "REJECTED"))
         if not ok:
             return False
-        d = os.path.join(SEEDED, "%s-%s" % (prop, i))
+        sid = "%s-%d" % (prop, int(i) + int(os.environ.get("SEEDED_OFFSET", "0")))
+        d = os.path.join(SEEDED, sid)
         os.makedirs(d, exist_ok=True)
         sh("cp %s %s/patch.diff && cp %s %s/demo.py" % (diff, d, demo, d))
         note = open(os.path.join(src, "bug%s.md" % i)).read() if os.path.exists(os.path.join(src, "bug%s.md" % i)) else ""
-        meta = {"id": "%s-%s" % (prop, i), "breaks_property": prop, "origin": "independent sub-agent given only the property text and its own worktree",
+        meta = {"id": sid, "breaks_property": prop, "origin": "independent sub-agent given only the property text and its own worktree",
                 "needs_to_manifest": note.strip(), "confirmed": {"demo_exit_clean_tree": clean, "demo_exit_with_change": broken, "baseline_tests_passed_with_change": npass,
                                                                  "how": "scratch worktree of /repo HEAD; demo run per interpreter with PYTHONPATH=<worktree>:/tmp/te_shim; %s" % TESTS},
                 "checks_run": {}}
